@@ -241,7 +241,7 @@ func (c *vxC14Case) sane() bool {
 			}
 		}
 		for _, p := range n.Prepare {
-			if _, ok := vxC14ErrCodes[p]; !ok && p != "ok" {
+			if _, ok := vxC14ErrCodes[p]; !ok && p != "ok" && p != "close" {
 				return false
 			}
 		}
@@ -268,6 +268,7 @@ type vxC14Prep struct {
 	ks                     string
 	fail                   bool
 	marker                 string
+	closed                 bool // the node dropped the connection instead of answering (transport-level failure)
 }
 
 type vxC14Exec struct {
@@ -295,6 +296,16 @@ type vxC14World struct {
 	execs  map[int][]vxC14Exec // by operation
 	queued int                 // UNPREPARED answers that were held back
 	done   bool
+	closeRounds map[int]bool   // rounds in which a node dropped a connection on PREPARE
+}
+
+func vxC14ConnErr(e string) bool {
+	for _, m := range []string{"EOF", "closed", "connection", "no hosts", "broken pipe", "reset", "context canceled"} {
+		if strings.Contains(e, m) {
+			return true
+		}
+	}
+	return false
 }
 
 var vxC14TokRe = regexp.MustCompile(`\btok(\d+)\b`)
@@ -356,6 +367,20 @@ func (w *vxC14World) onPrepare(ni int, rc *vnode.ReqCtx) {
 	ev := &vxC14Prep{node: ni, stmt: stmt, round: w.round, nth: nth, ks: ks}
 	w.preps = append(w.preps, ev)
 	var resp *cqlspec.Response
+	if outcome == "close" && c.Keyspaces == 1 {
+		// transport-level failure of the PREPARE: the node drops the connection without answering
+		ev.fail, ev.closed = true, true
+		if w.closeRounds == nil {
+			w.closeRounds = map[int]bool{}
+		}
+		w.closeRounds[w.round] = true
+		w.mu.Unlock()
+		rc.Conn.Close()
+		return
+	}
+	if outcome == "close" {
+		outcome = "ok"
+	}
 	if outcome != "ok" {
 		ev.fail = true
 		ev.marker = fmt.Sprintf("vxC14-refused-n%d-p%d;", ni, nth)
@@ -896,6 +921,26 @@ func vxC14Run(c *vxC14Case, k *vstats.Case) error {
 			return &vxC14Hung{what: fmt.Sprintf("round %d: executors still blocked after %v", ri, vxC14Watchdog)}
 		}
 		sample()
+		w.mu.Lock()
+		closedNow := w.closeRounds[ri]
+		w.mu.Unlock()
+		if closedNow {
+			// let the pools replace the dropped connections before the next round starts, so that a
+			// connection-level error in a later round cannot be blamed on the refill
+			deadline := time.Now().Add(5 * time.Second)
+			for time.Now().Before(deadline) {
+				open := 0
+				for _, pc := range vxPoolConns(s) {
+					if !pc.Closed() {
+						open++
+					}
+				}
+				if open >= c.Hosts*c.Keyspaces {
+					break
+				}
+				time.Sleep(2 * time.Millisecond)
+			}
+		}
 	}
 	stop()
 	w.mu.Lock()
@@ -1033,7 +1078,7 @@ func vxC14Run(c *vxC14Case, k *vstats.Case) error {
 		// which scripted PREPARE refusals explain the error?
 		explained := false
 		for _, p := range w.preps {
-			if p.fail && strings.Contains(res.err, p.marker) {
+			if p.fail && !p.closed && strings.Contains(res.err, p.marker) {
 				reported[p.marker]++
 				uses := false
 				for _, e := range ref.op.Entries {
@@ -1060,8 +1105,16 @@ func vxC14Run(c *vxC14Case, k *vstats.Case) error {
 			k.Class("outcome=arity-error")
 			continue
 		}
+		if res.err != "" && !explained && w.closeRounds[ref.round] && vxC14ConnErr(res.err) {
+			// a node dropped a connection while answering a PREPARE in this very round
+			k.Class("outcome=connection-lost-this-round")
+			continue
+		}
 		if res.err != "" {
 			if !explained {
+				if vxC14ConnErr(res.err) && len(w.closeRounds) > 0 {
+					return fmt.Errorf("%s failed with a connection-level error (%s) although no connection was dropped in its round (connections were dropped in rounds %v): a failed PREPARE was remembered", what, res.err, w.closeRounds)
+				}
 				return fmt.Errorf("%s binds the right number of values and failed: %s", what, res.err)
 			}
 			for _, e := range ex {
@@ -1088,7 +1141,10 @@ func vxC14Run(c *vxC14Case, k *vstats.Case) error {
 	}
 	maxRep := 0
 	for _, p := range w.preps {
-		if p.fail {
+		if p.fail && !p.closed {
+			if reported[p.marker] == 0 && w.closeRounds[p.round] {
+				continue // the refusal may have been lost with a connection dropped in the same round
+			}
 			if reported[p.marker] == 0 {
 				return fmt.Errorf("node %d refused PREPARE #%d (tok%d, round %d) but no caller got that error", p.node, p.nth, p.stmt, p.round)
 			}
@@ -1100,7 +1156,7 @@ func vxC14Run(c *vxC14Case, k *vstats.Case) error {
 	if maxRep >= 2 {
 		k.Class("one-refusal-failed-several-waiters")
 	}
-	if noEvict {
+	if noEvict && len(w.closeRounds) == 0 { // a dropped connection also kills other PREPAREs in flight on it: no bound then
 		ks := make([]string, 0, len(keys))
 		for key := range keys {
 			ks = append(ks, key)
@@ -1197,7 +1253,7 @@ func vxC14Draw(t *rapid.T) *vxC14Case {
 		}
 		c.Rounds = append(c.Rounds, rd)
 	}
-	outcome := rapid.SampledFrom([]string{"ok", "ok", "ok", "ok", "invalid", "syntax", "unauthorized", "server", "overloaded", "config"})
+	outcome := rapid.SampledFrom([]string{"ok", "ok", "ok", "ok", "invalid", "syntax", "unauthorized", "server", "overloaded", "config", "close"})
 	for h := 0; h < c.Hosts; h++ {
 		sc := vxC14Script{Prepare: rapid.SliceOfN(outcome, 0, 6).Draw(t, "prepare")}
 		nf := rapid.IntRange(0, 3).Draw(t, "forgets")
